@@ -1,19 +1,20 @@
 """C09 - the C extension and the pure-Python fallback are interchangeable."""
 from .. import engine
-from ..rules import convert, changed, pytaint, registry, sizes, slotsig
+from ..rules import convert, changed, pytaint, registry, sizes, slotsig, errexc
 
 
 def tu_check(tu):
     c = changed.analyse_conv(tu)
     return dict(findings=c["findings"], stats=c["stats"], dtype=convert.dtype_row(tu),
                 modfuncs=registry.module_functions(tu), sizes=sizes.c_facts(tu),
-                exc=sizes.c_read_translation(tu), slots=slotsig.analyse_tu(tu))
+                exc=sizes.c_read_translation(tu), slots=slotsig.analyse_tu(tu),
+                leak=errexc.analyse_leak(tu))
 
 
 def run(tier="quick", seed=0, use_cache=True):
     res = engine.Result("C09")
     res.rules = ["PY-TAINT", "CONV-BEFORE-MUT", "GROW-ROLLBACK", "READ-ABSENCE",
-                 "DTYPE-TABLE", "FAMILY-REG", "SIZE-WIRING", "SPLIT-POINT", "PY-NATIVE-CALL", "SLOT-SIG"]
+                 "DTYPE-TABLE", "FAMILY-REG", "SIZE-WIRING", "SPLIT-POINT", "PY-NATIVE-CALL", "SLOT-SIG", "EXC-LEAK"]
     res.explanation = (
         "Agreement of the two implementations on the structural points the "
         "property names: (1) conversion discipline - Python: taint analysis of "
@@ -32,7 +33,7 @@ def run(tier="quick", seed=0, use_cache=True):
         "type-object slot returns the class of value the slot's type promises "
         "(a narrower integer makes the error return unrecognisable: "
         "SystemError in place of the function's exception, where the Python "
-        "class raises the original one). Equality of results, shapes and pickles over "
+        "class raises the original one); (4) EXC-LEAK - no function returns a value that is not its error value on a path where a failing API / activation has certainly left an exception set (exception-state dataflow, error conventions of callees read off their return statements; accepted idiom: boolean 0 = failure functions) - the C side would raise SystemError where the Python class raises the original exception. Equality of results, shapes and pickles over "
         "call histories is not decided.")
     res.assumptions = ["public method tables of the C types define the shared API"]
     out = engine.map_tus("sa.props.C09", "tu_check", use_cache=use_cache)
@@ -42,6 +43,7 @@ def run(tier="quick", seed=0, use_cache=True):
         res.findings.extend(r["sizes"]["findings"], fam)
         res.findings.extend(r["exc"]["findings"], fam)
         res.findings.extend(r["slots"]["findings"], fam)
+        res.findings.extend(r["leak"]["findings"], fam)
         for k, v in r["stats"].items():
             if isinstance(v, int):
                 tot[k] = tot.get(k, 0) + v
@@ -52,6 +54,8 @@ def run(tier="quick", seed=0, use_cache=True):
     res.count("READ-ABSENCE", sum(r["exc"]["n"] for r in out.values()))
     res.floor("functions cast into type-object slots (OO)", out["OO"]["slots"]["n"], 35)
     res.count("SLOT-SIG", sum(r["slots"]["n"] for r in out.values()))
+    res.floor("return states examined for a pending exception (OO)", out["OO"]["leak"]["n"], 400)
+    res.count("EXC-LEAK", sum(r["leak"]["n"] for r in out.values()))
     res.count("SIZE-WIRING", sum(r["sizes"]["n"] for r in out.values()))
     convert.check_dtype_table(res, {f: r["dtype"] for f, r in out.items()})
     registry.check(res, {f: r["dtype"] for f, r in out.items()},
